@@ -224,7 +224,7 @@ func pkgoExpectations(w *world.World, m *world.Meta) []PkgoExpectation {
 			continue // same package: always allowed
 		}
 		// does the user import the declaring package directly? (indirect shapes may not)
-		direct := false
+		direct := user.BlankImport == u.Dep // a blank import is a direct import, too
 		for _, j := range user.Imports {
 			if j == u.Dep {
 				direct = true
